@@ -512,31 +512,45 @@ theorem pivot_ok_shape (t : Table) (x : List String) (y z : String) (agg : Agg) 
     simp only at hp
     split at hp
     · cases hp
-    · rename_i hnd
-      have hnd' : (x ++ labels).Nodup := by simpa using hnd
-      refine ⟨hsome, by rw [← hl']; exact hnd', ?_⟩
-      injection hp with hp
-      injection hp with hp
-      rw [← hp]
-      congr 1
-      rw [hl', ← List.map_prod_right_eq_zip, List.map_map]
-      rfl
+    · split at hp
+      · cases hp
+      · rename_i _ hnd
+        have hnd' : (x ++ labels).Nodup := by simpa using hnd
+        refine ⟨hsome, by rw [← hl']; exact hnd', ?_⟩
+        injection hp with hp
+        injection hp with hp
+        rw [← hp]
+        congr 1
+        rw [hl', ← List.map_prod_right_eq_zip, List.map_map]
+        rfl
 
 /-! ### labels -/
 
 theorem cmp_cell1 (a b : Cell) : cmp (.tuple [.cell a]) (.tuple [.cell b]) = Cell.cmp a b := by
   simp [cmp, Val.norm, normList, cmpN, cmpArr]
 
-/-- `cmp`-equal y values that both have a label have the same label -/
+/-- an int beside a float: `cmp`-equal values (`1`, `1.0`) of different types, whose column keys differ (`'1'`, `1.0`) -/
+def mixedNum : Val → Val → Bool
+  | .cell (.int _), .cell (.flt _) => true
+  | .cell (.flt _), .cell (.int _) => true
+  | _, _ => false
+
+/-- `cmp`-equal y values that both have a label have the same label — unless one is an int and the other a float -/
 theorem yLabel_congr {a b : Val} {s s' : String} (h : cmp (.tuple [a]) (.tuple [b]) = .eq)
-    (ha : yLabel a = some s) (hb : yLabel b = some s') : s = s' := by
-  unfold yLabel at ha hb
-  split at ha <;> split at hb <;>
-    simp_all [cmp_cell1, Cell.cmp, Cell.cmpSame, Cell.rank, Cell.num, Cell.skey]
-  rename_i n1 _ n2
-  have : n1 = n2 := by omega
-  subst this
-  exact ha.symm.trans hb
+    (hk : mixedNum a b = false) (ha : yLabel a = some s) (hb : yLabel b = some s') : s = s' := by
+  cases a with
+  | cell ca =>
+    cases b with
+    | cell cb =>
+      rw [cmp_cell1] at h
+      cases ca <;> cases cb <;>
+        simp_all [yLabel, keyName, mixedNum, Cell.cmp, Cell.cmpSame, Cell.rank, Cell.num, Cell.skey]
+      all_goals first
+        | (rename_i n1 n2; have : n1 = n2 := by omega
+           subst this; exact ha.symm.trans hb)
+        | skip
+    | _ => simp [yLabel] at hb
+  | _ => simp [yLabel] at ha
 
 theorem eq_of_nodup_map {α β} {f : α → β} : ∀ {l : List α}, (l.map f).Nodup →
     ∀ a ∈ l, ∀ b ∈ l, f a = f b → a = b
